@@ -101,6 +101,7 @@ var extraDoc = map[string]string{
 
 var extraRules = map[string][]func(*core.Ctx, *core.Ledger){
 	"C01": {
+		func(c *core.Ctx, l *core.Ledger) { checkFreshClaim(c, l, "FRESH-CLAIM", []string{"gen"}, 2) },
 		func(c *core.Ctx, l *core.Ledger) {
 			checkUnsafeLen(c, l, "UNSAFE-LEN", []string{"wire", "protocol/binary"})
 		},
@@ -117,11 +118,13 @@ var extraRules = map[string][]func(*core.Ctx, *core.Ledger){
 		func(c *core.Ctx, l *core.Ledger) { checkStopExact(c, l, "STOP-EXACT") },
 	},
 	"C04": {
+		func(c *core.Ctx, l *core.Ledger) { checkStopExact(c, l, "STOP-EXACT") },
 		func(c *core.Ctx, l *core.Ledger) {
 			checkUnsafeLen(c, l, "UNSAFE-LEN", []string{"wire", "protocol/binary"})
 		},
 	},
 	"C05": {
+		func(c *core.Ctx, l *core.Ledger) { checkReaderRows(c, l, "RSEQ") },
 		func(c *core.Ctx, l *core.Ledger) { checkStopExact(c, l, "STOP-EXACT") },
 		func(c *core.Ctx, l *core.Ledger) {
 			// skipping an unknown container of any size consumes exactly its bytes only if count × width does not wrap
@@ -135,6 +138,7 @@ var extraRules = map[string][]func(*core.Ctx, *core.Ledger){
 		func(c *core.Ctx, l *core.Ledger) { checkConstAccept(c, l, "CONST-ACCEPT") },
 	},
 	"C07": {
+		func(c *core.Ctx, l *core.Ledger) { checkNarrowing(c, l, "NARROW", []string{"compile"}) },
 		func(c *core.Ctx, l *core.Ledger) { checkLookupExact(c, l, "LOOKUP-EXACT") },
 	},
 	"C08": {
@@ -145,13 +149,24 @@ var extraRules = map[string][]func(*core.Ctx, *core.Ledger){
 			checkIndexGuard(c, l, "INDEX-GUARD", []string{"idl/internal", "idl"})
 		},
 	},
+	"C09": {
+		func(c *core.Ctx, l *core.Ledger) { checkParsedFieldID(c, l, "PARSE-ID") },
+	},
 	"C11": {
 		func(c *core.Ctx, l *core.Ledger) { checkPosLookup(c, l, "POS-LOOKUP") },
+	},
+	"C13": {
+		func(c *core.Ctx, l *core.Ledger) { checkNoRawRead(c, l, "FULL-READ", []string{"protocol/binary"}) },
+		func(c *core.Ctx, l *core.Ledger) { checkStreamReaderFullRead(c, l) },
 	},
 	"C14": {
 		func(c *core.Ctx, l *core.Ledger) { checkHashGetter(c, l, "HASH-KEY") },
 	},
+	"C17": {
+		func(c *core.Ctx, l *core.Ledger) { checkHandshakeGate(c, l) },
+	},
 	"C19": {
+		func(c *core.Ctx, l *core.Ledger) { checkNameKey(c, l, "NAME-KEY") },
 		func(c *core.Ctx, l *core.Ledger) { checkExceptionsPath(c, l, "REQUEST") },
 	},
 }
